@@ -207,8 +207,14 @@ func Run(cs Case, c *vrt.Ctx) {
 	if veterans {
 		c.Class("veteran-instances")
 	}
+	// the front-ends that differ from a plain one by an option argument or the Reuse flag only
+	// take every third input (by content): what they add is one branch at the start of the call
+	optioned := vh.Sum32()%3 == 0
 	for _, fe := range frontEnds {
 		if !veterans && strings.Contains(fe.name, "(veteran)") {
+			continue
+		}
+		if !optioned && (strings.Contains(fe.name, "(NumConv") || strings.Contains(fe.name, "{Reuse}")) {
 			continue
 		}
 		var err error
